@@ -1,0 +1,16 @@
+//go:build verif
+
+// Round 7: the package initializer of nsq_to_file - the strftime table the output file names are built from (C19: a file name pattern
+// %Y-%m-%d_%H names the hour the data belongs to; rotation by interval relies on the formatted time changing when the hour does). Comment-only file.
+
+package main
+
+// init: each directive maps to the reference-time layout element of package time that means the same thing (time/format.go).
+//@ func init()
+//@   props C19
+//@   ensures[date-directives] has(conversion, "Y") && conversion["Y"] == "2006" && has(conversion, "m") && conversion["m"] == "01" && has(conversion, "d") && conversion["d"] == "02"
+//@   ensures[time-directives] has(conversion, "H") && conversion["H"] == "15" && has(conversion, "M") && conversion["M"] == "04" && has(conversion, "S") && conversion["S"] == "05"
+//@   ensures[percent-is-itself] has(conversion, "%") && conversion["%"] == "%"
+//@   ensures[other-directives] has(conversion, "y") && conversion["y"] == "06" && has(conversion, "B") && conversion["B"] == "January" && has(conversion, "b") && conversion["b"] == "Jan" &&
+//@        has(conversion, "A") && conversion["A"] == "Monday" && has(conversion, "a") && conversion["a"] == "Mon" && has(conversion, "I") && conversion["I"] == "03" &&
+//@        has(conversion, "p") && conversion["p"] == "PM" && has(conversion, "Z") && conversion["Z"] == "MST" && has(conversion, "z") && conversion["z"] == "-0700"
